@@ -390,9 +390,22 @@ pub fn drive_evaluator(seed: u64, sessions: usize, with_nan: bool, sink: &mut Si
         // a fresh object, or (one session in three) the previous object edited IN PLACE with the previous session's
         // queries asked again of a new evaluator: nothing may survive from the evaluator that is gone
         let (pw, replay) = match kept.take() {
-            Some((mut p, q)) if rng.below(3) == 0 => {
-                edit_in_place(&mut rng, &mut p, false);
-                (p, if rng.bool() { q } else { vec![] })
+            Some((mut p, q)) if rng.below(2) == 0 => {
+                // mostly edits that keep the length (whatever is remembered per buffer and length stays addressable)
+                let n0 = p.segments.len();
+                for _ in 0..4 {
+                    let mut t = p.clone();
+                    edit_in_place(&mut rng, &mut t, false);
+                    if t.segments.len() == n0 || rng.below(4) == 0 {
+                        // apply the accepted edit to the ORIGINAL buffer (same address)
+                        p.segments.truncate(t.segments.len());
+                        for (s, u) in p.segments.iter_mut().zip(t.segments.iter()) {
+                            s.end = u.end;
+                        }
+                        break;
+                    }
+                }
+                (p, if rng.below(3) != 0 { q } else { vec![] })
             }
             _ => {
                 let n = if rng.below(20) == 0 { rng.long_len() } else { 1 + rng.size(4, 40, 8) as usize };
